@@ -77,4 +77,4 @@ if __name__ == "__main__":
         if res.error:
             print(p, "ANALYSIS-ERROR", res.error[:200]); continue
         decide(res)
-        print(p, "violations:", [f.key for f in res.violations][:6] or "none")
+        print(p, "violations:", [f.key for f in res.violations][:6] or "none", ("| rules not applicable: " + "; ".join(m[:90] for _, m in res.rule_errors)) if res.rule_errors else "")
